@@ -92,7 +92,7 @@ func Start(r *zsim.Run, addr string) *Server {
 		PoolSize:        20,
 		MinRetryBackoff: 8 * time.Millisecond,
 		MaxRetryBackoff: 8 * time.Millisecond,
-		Dialer:       s.dial,
+		Dialer:          s.dial,
 	})
 	return s
 }
